@@ -13,6 +13,9 @@ import SvgVerif.Model.Radial
 import SvgVerif.Model.Enclose
 import SvgVerif.Model.Length
 import SvgVerif.Model.Smoothing
+import SvgVerif.Model.Flatten
+import SvgVerif.Model.TransformParse
+import SvgVerif.Spec.Shapes
 /-! Correspondence driver: one operation per input line, one canonical result per
 output line.  Run as `lake env lean --run Driver.lean < ops.txt`.  The Python
 harness feeds the same operations to the real svgpathtools code and diffs. -/
@@ -347,6 +350,145 @@ def runSJoint (ws : List String) : String :=
     s!"({r.1.1}, [{", ".intercalate (r.2.1.map (·.1))}], {r.2.2.1})"
   | _ => "bad-args"
 
+/-! C17 -/
+open SvgVerif.Model.Flatten in
+def showAff (m : Aff Rat) : String :=
+  s!"{showRat m.a},{showRat m.b},{showRat m.c},{showRat m.d},{showRat m.e},{showRat m.f}"
+
+open SvgVerif.Model.Flatten in
+def affOf : List Rat → Option (Aff Rat)
+  | [a, b, c, d, e, f] => some ⟨a, b, c, d, e, f⟩
+  | _ => none
+
+/-- decimal literal as accepted by Python's `float` (the subset the harness generates) -/
+def parseDec (cs : List Char) : Option Rat :=
+  let (neg, cs) := match cs with
+    | '-' :: r => (true, r)
+    | '+' :: r => (false, r)
+    | _ => (false, cs)
+  let ip := cs.takeWhile Char.isDigit
+  let r1 := cs.dropWhile Char.isDigit
+  let (fp, r2, _dot) := match r1 with
+    | '.' :: r => (r.takeWhile Char.isDigit, r.dropWhile Char.isDigit, true)
+    | _ => ([], r1, false)
+  if ip.isEmpty && fp.isEmpty then none else
+  let digits (ds : List Char) : Nat := ds.foldl (fun a c => 10 * a + (c.toNat - '0'.toNat)) 0
+  let mant : Rat := (digits ip : Rat) + (digits fp : Rat) / ((10 ^ fp.length : Nat) : Rat)
+  let withExp : Option Rat := match r2 with
+    | [] => some mant
+    | e :: r =>
+      if e = 'e' || e = 'E' then
+        let (eneg, r) := match r with
+          | '-' :: t => (true, t)
+          | '+' :: t => (false, t)
+          | _ => (false, r)
+        if r.isEmpty || !r.all Char.isDigit then none
+        else
+          let k := digits r
+          some (if eneg then mant / ((10 ^ k : Nat) : Rat) else mant * ((10 ^ k : Nat) : Rat))
+      else none
+  withExp.map (fun v => if neg then -v else v)
+
+def oracleIdx (a : Rat) (shift : Int) : Rat := (((a * 4).floor + shift) % 8 : Int)
+def cosd (a : Rat) : Rat := oracleIdx a 0 / 8
+def sind (a : Rat) : Rat := oracleIdx a 3 / 8 - 1 / 2
+def tand (a : Rat) : Rat := oracleIdx a 5 / 4
+
+open SvgVerif.Model.TransformParse in
+def runPtf (ws : List String) : String :=
+  match ws with
+  | [enc] =>
+    let s := enc.toList.map (fun c => if c = '~' then ' ' else c)
+    match parseTransform parseDec cosd sind tand s with
+    | .ok m => "ok " ++ showAff m
+    | .valueError => "valueerror"
+  | [] => "ok " ++ showAff SvgVerif.Model.Flatten.Aff.one
+  | _ => "bad-args"
+
+open SvgVerif.Model.Parser in
+def zeroLen : Seg Rat → Bool
+  | .line a b => a == b
+  | .quad a c b => a == b && a == c
+  | .cubic a c1 c2 b => a == b && a == c1 && a == c2
+  | .arc a _ _ _ _ b => a == b
+
+open SvgVerif.Spec.Shapes SvgVerif.Model.Parser in
+def runShape (ws : List String) : String :=
+  let opt (w : String) : Option (Option Rat) := if w = "-" then some none else (parseRat? w).map some
+  let sh : Option (Shape Rat) := match ws with
+    | ["rect", x, y, w, h, rx, ry] => do
+        pure (.rect (← parseRat? x) (← parseRat? y) (← parseRat? w) (← parseRat? h) (← opt rx) (← opt ry))
+    | ["ellipse", cx, cy, rx, ry] => do pure (.ellipse (← parseRat? cx) (← parseRat? cy) (← parseRat? rx) (← parseRat? ry))
+    | ["line", a, b, c, d] => do pure (.line (← parseRat? a) (← parseRat? b) (← parseRat? c) (← parseRat? d))
+    | "polyline" :: r => (parseRats? r >>= pairUp).map .polyline
+    | "polygon" :: r => (parseRats? r >>= pairUp).map .polygon
+    | _ => none
+  match sh with
+  | none => "bad-args"
+  | some sh =>
+    match SvgVerif.Spec.SvgPath.run (0, 0) (toCmds sh) with
+    | none => "none"
+    | some (segs, closed) => (s!"ok {closed} " ++ " ; ".intercalate ((segs.filter (fun s => !zeroLen s)).map showSeg)).trimAsciiEnd.toString
+
+open SvgVerif.Model.Flatten in
+/-- prefix encoding: `G id a b c d e f nS (kind id a b c d e f)^nS nK (child)^nK` -/
+def parseGrp : Nat → List String → Option (Grp (Aff Rat) × List String)
+  | 0, _ => none
+  | fuel + 1, "G" :: id :: ws => do
+    let id ← id.toNat?
+    let m ← parseRats? (ws.take 6) >>= affOf
+    let ws := ws.drop 6
+    let nS ← ws.head? >>= String.toNat?
+    let mut ws := ws.drop 1
+    let mut shapes : List (Shape (Aff Rat)) := []
+    for _ in List.range nS do
+      let k ← ws.head? >>= String.toNat?
+      let sid ← (ws.drop 1).head? >>= String.toNat?
+      let sm ← parseRats? ((ws.drop 2).take 6) >>= affOf
+      shapes := shapes ++ [{ kind := k, id := sid, tf := sm }]
+      ws := ws.drop 8
+    let nK ← ws.head? >>= String.toNat?
+    ws := ws.drop 1
+    let mut kids : List (Grp (Aff Rat)) := []
+    for _ in List.range nK do
+      let (k, rest) ← parseGrp fuel ws
+      kids := kids ++ [k]
+      ws := rest
+    pure (.mk id m shapes kids, ws)
+  | _, _ => none
+
+open SvgVerif.Model.Flatten in
+def showFlat (ps : List (Nat × Aff Rat)) : String := " ".intercalate (ps.map (fun p => s!"{p.1}:{showAff p.2}"))
+
+open SvgVerif.Model.Flatten in
+partial def findGrp (t : Nat) (g : Grp (Aff Rat)) : Option (Grp (Aff Rat)) :=
+  if g.id == t then some g else g.kids.findSome? (findGrp t)
+
+open SvgVerif.Model.Flatten in
+def runFlat (ws : List String) : String :=
+  match parseGrp 64 ws with
+  | some (g, []) =>
+    match flattenedPaths Aff.mul Aff.one (fun _ => true) (fun _ => true) g with
+    | some ps => "ok " ++ showFlat ps
+    | none => "fuel"
+  | _ => "bad-args"
+
+open SvgVerif.Model.Flatten in
+def runFromGroup (ws : List String) : String :=
+  match ws with
+  | t :: rec :: "|" :: tree =>
+    match t.toNat?, parseGrp 64 tree with
+    | some t, some (g, []) =>
+      match findGrp t g with
+      | none => "notdescendant"
+      | some tg =>
+        match fromGroup Aff.mul Aff.one g tg (rec == "1") with
+        | .paths ps => "ok " ++ showFlat ps
+        | .notDescendant => "notdescendant"
+        | .fuel => "fuel"
+    | _, _ => "bad-args"
+  | _ => "bad-args"
+
 def handle (cmd : String) (args : List String) : String :=
   match cmd with
   | "polyroots01" =>
@@ -500,6 +642,10 @@ def handle (cmd : String) (args : List String) : String :=
     | some [L, s] => showIl (InvArc.invLine L s)
     | _ => "bad-args"
   | "invpath" => runInvPath args
+  | "ptf" => runPtf args
+  | "shape" => runShape args
+  | "flat" => runFlat args
+  | "fromgroup" => runFromGroup args
   | "smooth" => runSmooth args
   | "sjoint" => runSJoint args
   | "seglen" => runSegLen args
